@@ -19,8 +19,10 @@ PKGS = ["foyer-common", "foyer-memory", "foyer-storage", "foyer", "foyer-tokio"]
 # configuration name -> cargo feature flags
 CONFIGS = {
     "default": [],
-    "serde": ["--features", "foyer/serde"],
-    "strict": ["--features", "foyer-memory/strict_assertions,foyer-storage/strict_assertions,foyer-common/strict_assertions"],
+    "serde": ["--features", "foyer/serde,foyer-common/serde,foyer-storage/serde"],
+    "strict": ["--features", "foyer/strict_assertions,foyer-common/strict_assertions,foyer-memory/strict_assertions,foyer-storage/strict_assertions,"
+                             "foyer/test_utils,foyer-storage/test_utils,foyer-memory/test_utils"],
+    "tracing": ["--features", "foyer/tracing,foyer-common/tracing,foyer-memory/tracing,foyer-storage/tracing"],
 }
 
 
@@ -78,7 +80,7 @@ def ensure(config="default", repo=REPO, work=WORK, quiet=False):
         build_driver()
         out = facts_dir(config, repo, work)
         stamp = os.path.join(out, "STAMP")
-        want = repo_hash(repo) + ":" + config
+        want = repo_hash(repo) + ":" + config + ":" + " ".join(CONFIGS[config])
         if os.path.exists(stamp) and open(stamp).read().strip() == want and all(
                 glob.glob(os.path.join(out, c + ".*.json")) for c in CRATES):
             return out
